@@ -149,6 +149,7 @@ structure Acc where
   outS : Array Json := #[]
   kf : Option String := none
   kfi : List Nat := []
+  kfm : List (Nat × String) := []        -- observation index ↦ class of the known finding it is attributed to
   nt : Nat := 0
   snap : Option S := none
 
@@ -223,7 +224,8 @@ def doQuery (a : Acc) (q : Json) : R Acc := do
     let hasCore := asked.contains "core.Dataset"
     return { a with outM := a.outM.push (mk true), outS := a.outS.push (mk false), nt := a.nt + 1,
                     kf := if hasCore then (match a.kf with | some k => some k | none => some "core.Dataset-own-items-counter") else a.kf,
-                    kfi := if hasCore then a.outM.size :: a.kfi else a.kfi }
+                    kfi := if hasCore then a.outM.size :: a.kfi else a.kfi,
+                    kfm := if hasCore then (a.outM.size, "core.Dataset-own-items-counter") :: a.kfm else a.kfm }
   | "context" =>
     let name ← getStr q "ds"
     match s.dsid.lookup name with
@@ -290,7 +292,8 @@ def doQuery (a : Acc) (q : Json) : R Acc := do
         let specO := if okSpec then o else (if inv then Json.mkObj [("union", relRender s gq)] else Json.mkObj [("union", relRender s gq), ("done", Json.bool true)])
         return { a with outM := a.outM.push o, outS := a.outS.push specO, nt := a.nt + 1,
                         kf := match a.kf with | some k => some k | none => kfc,
-                        kfi := if kfc.isSome then a.outM.size :: a.kfi else a.kfi }
+                        kfi := if kfc.isSome then a.outM.size :: a.kfi else a.kfi,
+                        kfm := match kfc with | some c => (a.outM.size, c) :: a.kfm | none => a.kfm }
       else
       let (res, cont) := if inv then relatedIn s.db st p at_ limit scope key else relatedOut s.db st p at_ limit scope key
       let o := if inv then Json.mkObj [("rel", relRender s res)] else Json.mkObj [("rel", relRender s res), ("done", Json.bool cont.isNone)]
@@ -305,7 +308,8 @@ def doQuery (a : Acc) (q : Json) : R Acc := do
       let kfq := if inv ∧ d4Class s st at_ scope then kfc else kf
       return { a with s := s', outM := a.outM.push o, outS := a.outS.push specO, nt := a.nt + 1,
                       kf := match a.kf with | some k => some k | none => kfq,
-                      kfi := if kfq.isSome then a.outM.size :: a.kfi else a.kfi }
+                      kfi := if kfq.isSome then a.outM.size :: a.kfi else a.kfi,
+                      kfm := match kfq with | some c => (a.outM.size, c) :: a.kfm | none => a.kfm }
   | _ => throw s!"bad query {kind}"
 
 def regIds (s : S) (rids : Json) : S :=
@@ -408,7 +412,8 @@ def msrun (a : Acc) (op : Json) : R Acc := do
   return { a with s := { s with jobs := (job, rm.2.2) :: s.jobs.filter (·.1 != job) },
                   outM := a.outM.push jm, outS := a.outS.push js, nt := a.nt + (if rm.1.isEmpty then 0 else 1),
                   kf := match a.kf with | some k => some k | none => kfq,
-                  kfi := if kfq.isSome then a.outM.size :: a.kfi else a.kfi }
+                  kfi := if kfq.isSome then a.outM.size :: a.kfi else a.kfi,
+                  kfm := match kfq with | some c => (a.outM.size, c) :: a.kfm | none => a.kfm }
 
 def doOpCore (a : Acc) (idx : Nat) (op : Json) : R Acc := do
   let s := regIds a.s ((getOpt op "newids").getD (Json.mkObj []))
@@ -575,7 +580,7 @@ def hist (inp : Json) : R Res := do
   let specOut := match a.s.poison with
     | some msg => Json.arr #[Json.mkObj [("violates", Json.str msg)]]
     | none => Json.arr a.outS
-  return { m := Json.arr a.outM, s := some specOut, nt := decide (a.nt ≥ 2 ∧ a.s.db.versions.length ≥ 3), kf := a.kf, kfi := a.kfi }
+  return { m := Json.arr a.outM, s := some specOut, nt := decide (a.nt ≥ 2 ∧ a.s.db.versions.length ≥ 3), kf := a.kf, kfi := a.kfi, kfm := a.kfm }
 
 def handle (k : String) (inp : Json) : Option (R Res) :=
   match k with
